@@ -25,7 +25,19 @@ CONFIG = {
                   "f64 <- arbitrary literal, over the executable model of f64::from_str the driver runs: success iff literal of "
                   "a whitelisted datatype whose lexical form parses; on L(xsd:double) the result is the value the XSD mapping "
                   "gives PROVIDED the exponent is below 655360 (f64_parse_denotes_partial; the bound is sharp: finding "
-                  "C20-f64-exponent-clamp). H1-H4 and the model are re-validated against the real implementation on every "
+                  "C20-f64-exponent-clamp). ROUND 3 - H1-H4 discharged over an executable model of `impl Display for f64` "
+                  "(RustF64.display: shortest digits that read back, closest first, ties up, digits_to_dec_str layout), compared "
+                  "with the implementation's lexical_form() on every generated double: H1 is a theorem (render_matches / "
+                  "display_spec: the layout is -?[0-9]+(.[0-9]+)? for all digits and exponents), H2 is a theorem of the model pair "
+                  "(display_roundtrip: what display prints, the model of f64::from_str reads back as the same bits; display_denotes: and it "
+                  "denotes that value under the XSD lexical-to-value mapping, the differential's oracle), H3 is not "
+                  "needed (f64_nonfinite_valid_nohyp, for every printer), H4 is a computation (f64_nonfinite_roundtrip_model); "
+                  "stdF64_of_model / f64_all_values_model: every bit pattern < 2^64 is a valid xsd:double literal and converts "
+                  "back (NaN to NaN) under the single residual hypothesis DisplayTotal (a decimal of <= 17 digits reads back; "
+                  "checked per generated value), f64_finite_model: per value with no hypothesis; H2_necessary / "
+                  "H1_or_similar_necessary: kernel witnesses that some contract on the printer is needed. What remains "
+                  "differential: that the two models ARE core's Display/FromStr (every generated double's lexical form, every "
+                  "parse request), DisplayTotal, and the correct rounding of Dec.nearest. H1-H4 and the model are re-validated against the real implementation on every "
                   "run (differential, not proof).",
     "level_note": "Trusted: hand transcription of the XSD 1.1 lexical spaces and of core's integer Display/FromStr and "
                   "bool::from_str; core's float formatting/parsing only through H1-H4 (checked per run on an edge table + random "
@@ -53,6 +65,9 @@ CONFIG = {
         "f64_shape_valid", "f64_nonfinite_valid", "f64_all_values",
         "try_ok_iff", "f64_try_ok_iff", "expClamped_exact_below_limit", "expClamped_limit_witness",
         "f64_parse_ok_lexical", "f64_parse_denotes_partial",
+        "render_matches", "display_spec", "parse_of_finiteDisplay", "display_roundtrip", "stdF64_of_model",
+        "f64_all_values_model", "f64_finite_model", "f64_nonfinite_valid_nohyp", "f64_nonfinite_roundtrip_model",
+        "H2_necessary", "H1_or_similar_necessary", "expPart_of_finiteDisplay", "display_denotes",
     ],
     "native_ok": ["rustFiniteDisplay_incl_double_decided", "rustFiniteDisplay_disj_special"],
     "trivial_re": r"^(member=|ok=0 )",
@@ -78,13 +93,20 @@ CONFIG = {
         "XSD 1.1 part 2 lexical spaces / lexical-to-value mappings, hand transcription in lean/SophiaModel/Model/Native.lean (Xsd.*); "
         "XML Char taken as the larger (XML 1.1) set",
         "core::fmt Display for integers, core::num from_str_radix, bool::from_str: hand transcription (differential per run)",
+        "core float Display: executable specification-level model RustF64.display (shortest round-tripping digits; ties "
+        "round up; digits_to_dec_str layout), compared per generated double; "
         "core float Display/FromStr: assumed via H1-H4 (StdF64), validated per run; RustF64.parse syntax model + exact decimal->binary64 "
         "(Dec.nearest) used only by the differential",
         "core::num::dec2flt exponent reader (bounded accumulator that drops digits): hand transcription RustF64.expClamped, "
         "validated per run by the `bigf` requests on both sides of the limit 655360",
+        "tools/extractors/c20.py expands single-rule macro_rules! (plain $x:frag parameters), accepts the let-bound / array "
+        "forms of the whitelist test and every spelling of Display (format!(\"{}\"), format!(\"{self}\"), to_string(), .into()); "
         "tools/extractors/c20.py (fail-closed shape matcher; its tables are cross-checked behaviourally by the `wl` and `h3` requests)",
     ],
     "assumptions": [
+        "since round 3 H1-H4 are theorems of the Display/FromStr MODELS (RustF64.display / RustF64.parse); assumed instead: "
+        "DisplayTotal (the search within 17 digits succeeds - reported per value as `model-display-failed` otherwise) and that "
+        "the models are core's (differential). Original wording: "
         "H1: finite f64 Display matches -?[0-9]+(\\.[0-9]+)? ; H2: parse(Display(x)) == x bitwise; H3: non-finite print inf/-inf/NaN; "
         "H4: inf/INF/-inf/-INF/NaN parse to the special values (all four re-checked on every run)",
         "isize/usize are 64 bit on the target",
